@@ -1,6 +1,262 @@
-//! C02 — not built yet.
+//! C02 — encode/decode round trip.  Stage 1: the encoder core and name compression.
+//! Case lines are encoder scripts (see `encscript.rs`): sequences of names written in the various
+//! name-encoding modes into one real `BinEncoder`, interleaved with the primitives a record writer
+//! uses.  Compared with the Lean model byte for byte; the oracle (independent of the model) decodes
+//! every written name with the real `Name::read` at its start offset and demands the identical
+//! label sequence, letter case included.
 use crate::common::*;
+use crate::props::encscript::*;
 
-pub fn run(_o: &Opts, rec: &mut Recorder) {
-    rec.rule = "stub".into();
+fn nontrivial(v: &Verdict) -> bool {
+    v.compressed_names >= 1 && v.checked_names >= 2
+}
+
+pub fn exec(line: &str, rec: &mut Recorder) {
+    encscript::exec(line, rec, nontrivial)
+}
+
+use crate::props::encscript;
+
+// ---------------------------------------------------------------- generators
+
+/// a pool of base domains; names are built as `prefix labels ++ base`
+struct Family {
+    bases: Vec<Vec<Vec<u8>>>,
+    prefixes: Vec<Vec<u8>>,
+}
+
+fn gen_family(r: &mut Rng) -> Family {
+    let nb = r.range(1, 4) as usize;
+    let bases = (0..nb)
+        .map(|_| {
+            let k = r.range(1, 3) as usize;
+            (0..k).map(|_| small_label(r)).collect()
+        })
+        .collect();
+    let np = r.range(1, 5) as usize;
+    let prefixes = (0..np).map(|_| small_label(r)).collect();
+    Family { bases, prefixes }
+}
+
+fn gen_name_in(r: &mut Rng, f: &Family, distinct: Option<usize>) -> String {
+    if r.chance(1, 40) {
+        return "F:".into();
+    }
+    let base = r.pick(&f.bases).clone();
+    let mut labels: Vec<Vec<u8>> = vec![];
+    if let Some(i) = distinct {
+        // a label no other name of the script has: forces a new candidate
+        labels.push(format!("x{i}").into_bytes());
+    }
+    let k = match r.below(6) {
+        0 => 0,
+        1 | 2 => 1,
+        3 | 4 => 2,
+        _ => 3,
+    };
+    for _ in 0..k {
+        labels.push(r.pick(&f.prefixes).clone());
+    }
+    labels.extend(base);
+    if r.chance(1, 5) {
+        // case-sensitive candidate matching: flip the case of some letters
+        labels = labels.iter().map(|l| rand_case(r, l, 1, 3)).collect();
+    }
+    match name_from(&labels) {
+        Some(mut s) => {
+            if r.chance(1, 12) {
+                s.replace_range(0..1, "R");
+            }
+            s
+        }
+        None => "F:".into(),
+    }
+}
+
+fn name_op(r: &mut Rng, name: &str) -> String {
+    if r.chance(1, 6) {
+        format!("rd:{}:{}", r.pick(&["s", "c", "o"]), name)
+    } else {
+        format!("n:{}:{}", mode_tok(r), name)
+    }
+}
+
+/// a record-shaped group: owner, type/class/ttl, RDLENGTH place, rdata (maybe names), back-patch
+fn record_ops(r: &mut Rng, f: &Family, out: &mut Vec<String>) {
+    out.push(format!("n:d:{}", gen_name_in(r, f, None)));
+    out.push(format!("u16:{}", r.pick(&[1u32, 2, 5, 15, 16, 33, 6])));
+    out.push("u16:1".into());
+    out.push(format!("u32:{}", r.below(100000)));
+    out.push("pl:u".into());
+    match r.below(5) {
+        0 => out.push(format!("sl:{}", hex(&r.bytes(4)))),
+        1 => out.push(format!("rd:s:{}", gen_name_in(r, f, None))),
+        2 => {
+            out.push(format!("u16:{}", r.below(100)));
+            out.push(format!("rd:s:{}", gen_name_in(r, f, None)));
+        }
+        3 => {
+            let k = r.below(20) as usize;
+            out.push(format!("cd:{}", hex(&r.bytes(k))));
+        }
+        _ => {
+            out.push(format!("sl:{}", hex(&r.bytes(6))));
+            out.push(format!("rd:o:{}", gen_name_in(r, f, None)));
+        }
+    }
+    out.push("rpl".into());
+}
+
+fn gen_script(r: &mut Rng) -> String {
+    let f = gen_family(r);
+    let mut ops: Vec<String> = vec![];
+    let shape = r.below(20);
+    // prefix
+    match r.below(8) {
+        0 => ops.push("pl:12".into()),
+        1 => ops.push(format!("sl:{}", hex(&r.bytes(12)))),
+        2 if shape >= 4 => {
+            // names below, a filler, names across / above the 0x3FFF candidate-offset limit
+            for _ in 0..r.range(1, 6) {
+                let n = gen_name_in(r, &f, None);
+                ops.push(name_op(r, &n));
+            }
+            ops.push(format!("fill:{}:00", 16383 - r.below(120) as i64 - if r.chance(1, 3) { 0 } else { 40 }));
+        }
+        _ => {}
+    }
+    if r.chance(1, 10) {
+        // a tiny limit: names fail at a label, at the root octet or at the pointer; the names that
+        // were written must still decode (the limit is never raised again)
+        ops.push(format!("max:{}", r.below(90)));
+    }
+    if r.chance(1, 10) {
+        ops.push("canon:1".into());
+    }
+    if r.chance(1, 15) {
+        ops.push(format!("ne:{}", r.pick(&["c", "u", "l"])));
+    }
+    let count = match shape {
+        0 => r.range(66, 100),  // > 64 candidates
+        1 => r.range(121, 170), // > 120 compressed names
+        2 | 3 => r.range(30, 64),
+        _ => r.range(2, 16),
+    } as usize;
+    let distinct = shape <= 1 || r.chance(1, 4);
+    let mut emitted: Vec<String> = vec![];
+    for i in 0..count {
+        if shape > 3 && r.chance(1, 5) {
+            record_ops(r, &f, &mut ops);
+            continue;
+        }
+        let n = if !emitted.is_empty() && r.chance(1, 5) {
+            r.pick(&emitted).clone()
+        } else {
+            let d = if distinct && r.chance(3, 4) { Some(i) } else { None };
+            gen_name_in(r, &f, d)
+        };
+        emitted.push(n.clone());
+        ops.push(name_op(r, &n));
+        if r.chance(1, 12) {
+            ops.push(format!("u16:{}", r.below(65536)));
+        }
+    }
+    format!("enc e {}", ops.join(" "))
+}
+
+/// names of 250..255 octets sharing long suffixes
+fn gen_long_script(r: &mut Rng) -> String {
+    let mut tail: Vec<Vec<u8>> = vec![];
+    let mut total = 1usize;
+    let target = r.range(240, 255) as usize;
+    while total < target {
+        let room = target - total;
+        if room < 2 {
+            break;
+        }
+        let l = (room - 1).min(r.range(1, 63) as usize);
+        let c = *r.pick(b"abAB");
+        tail.push(vec![c; l]);
+        total += l + 1;
+    }
+    let mut ops = vec![];
+    if r.chance(1, 2) {
+        ops.push(format!("fill:{}:00", 16383 - r.below(300)));
+    }
+    for _ in 0..r.range(2, 6) {
+        let skip = r.below(tail.len() as u64) as usize;
+        let mut labels: Vec<Vec<u8>> = tail[skip..].to_vec();
+        if r.chance(1, 2) {
+            let used: usize = labels.iter().map(|l| l.len() + 1).sum::<usize>() + 1;
+            let room = 255usize.saturating_sub(used);
+            if room >= 2 {
+                let l = (room - 1).min(63).min(r.range(1, 63) as usize);
+                labels.insert(0, vec![*r.pick(b"qQ"); l]);
+            }
+        }
+        if r.chance(1, 6) {
+            labels = labels.iter().map(|l| rand_case(r, l, 1, 8)).collect();
+        }
+        if let Some(n) = name_from(&labels) {
+            ops.push(format!("n:{}:{}", mode_tok(r), n));
+        }
+    }
+    format!("enc e {}", ops.join(" "))
+}
+
+/// deterministic adversarial scripts too long for the corpus files
+fn built_in() -> Vec<String> {
+    let mut v = vec![];
+    let lab = |s: &str| hex(s.as_bytes());
+    // 70 distinct suffixes: only the first 64 become candidates; re-emit all of them
+    let mut ops = vec![];
+    for i in 0..70 {
+        ops.push(format!("n:c:F:{}.{}", lab(&format!("h{i}")), lab(&format!("d{i}"))));
+    }
+    for i in 0..70 {
+        ops.push(format!("n:c:F:{}.{}.{}", lab("www"), lab(&format!("h{i}")), lab(&format!("d{i}"))));
+    }
+    v.push(format!("enc e {}", ops.join(" ")));
+    // 130 names with one shared suffix: compression stops after 120 names
+    let mut ops = vec![];
+    for i in 0..130 {
+        ops.push(format!("n:c:F:{}.{}.{}", lab(&format!("n{i}")), lab("example"), lab("com")));
+    }
+    ops.push(format!("n:c:F:{}.{}", lab("example"), lab("com")));
+    v.push(format!("enc e {}", ops.join(" ")));
+    // candidates may only be stored while offset < 0x3FFF; pointers to low offsets stay usable above
+    for start in [16370usize, 16380, 16381, 16382, 16383, 16384, 16390] {
+        let mut ops = vec![format!("n:c:F:{}.{}", lab("low"), lab("org")), format!("fill:{}:00", start - 9)];
+        for i in 0..4 {
+            ops.push(format!("n:c:F:{}.{}.{}", lab(&format!("a{i}")), lab("hi"), lab("net")));
+            ops.push(format!("n:c:F:{}.{}.{}", lab(&format!("b{i}")), lab("low"), lab("org")));
+        }
+        v.push(format!("enc e {}", ops.join(" ")));
+    }
+    // case-sensitive matching: ABC.com must not point at abc.com
+    v.push(format!(
+        "enc e n:c:F:{}.{} n:c:F:{}.{} n:c:F:{}.{} n:l:F:{}.{} n:c:F:{}.{}",
+        lab("abc"), lab("com"), lab("ABC"), lab("com"), lab("abc"), lab("COM"), lab("ABC"), lab("COM"), lab("abc"), lab("com")
+    ));
+    v
+}
+
+pub fn run(o: &Opts, rec: &mut Recorder) {
+    rec.rule = "encoder scripts from a seeded structured generator: 2-170 names per script built from a small family of base domains and prefix labels (shared suffixes, exact repeats, mixed case, a label unique to the script to force new candidates, root, relative names), modes Compressed/Uncompressed/UncompressedLowercase/with_rdata_behavior x canonical_form, record-shaped groups with RDLENGTH place/back-patch, > 64 candidates, > 120 compressed names, a filler moving the offset across 0x3FFF, names of 240-255 octets, one script in ten under a limit of 0-89 octets; a case is non-trivial when at least one name was written with a compression pointer and at least two names were round-trip checked; distinct by case line".into();
+    for l in o.pre_lines.clone() {
+        exec(&l, rec);
+    }
+    rec.corpus_cases = rec.cases.len();
+    if o.replay_only {
+        return;
+    }
+    for l in built_in() {
+        exec(&l, rec);
+    }
+    let mut r = Rng::new(o.seed);
+    let n = o.n(1200, 40_000);
+    for i in 0..n {
+        let line = if i % 10 == 9 { gen_long_script(&mut r) } else { gen_script(&mut r) };
+        exec(&line, rec);
+    }
 }
